@@ -694,10 +694,10 @@ func (w *world) evaluate() {
 		for _, h := range ss.hookCalls {
 			total.hookMsgs++
 			if h.stamp > ss.relEnd {
-				run.Violation("hook-called-after-release", "OnMessage|"+w.sc.topo, w.wit(merge(base, map[string]any{"message": h.m})))
+				run.Violation("hook-called-after-release", fmt.Sprintf("OnMessage|resp2=%v|%s", w.sc.resp2, w.sc.topo), w.wit(merge(base, map[string]any{"message": h.m})))
 			}
 			if !strings.HasPrefix(h.m.Channel, fmt.Sprintf("{t}S%d.", ss.id)) {
-				run.Violation("foreign-subscription-delivered", "OnMessage|"+w.sc.topo, w.wit(merge(base, map[string]any{"message": h.m})))
+				run.Violation("foreign-subscription-delivered", fmt.Sprintf("OnMessage|resp2=%v|%s", w.sc.resp2, w.sc.topo), w.wit(merge(base, map[string]any{"message": h.m})))
 			}
 		}
 		for _, st := range ss.invalCalls {
